@@ -36,6 +36,8 @@ def prefix_menu(cols, roles, depth, hist):
     items += [{"op": "rename_columns", "map": {"x": "y", "y": "x"}}] if {"x", "y"} <= set(cols) else []
     items += menus.join_items(cols, roles, depth, jointypes=("LEFT",), rights=[menus.E_HIST], self_join=False)[:1]
     items += [o for o in menus.order_items(cols, roles) if o["limit"] == 1][:1]
+    # a limit-less order_rows: the builder removes it and re-dispatches the aggregation step to its source
+    items += [o for o in menus.order_items(cols, roles) if o["limit"] is None][:1]
     return items
 
 
@@ -73,8 +75,8 @@ def suffixes(agg, cols_after, outputs, keys):
     return out
 
 
-BACKENDS = ["pandas", "polars_eager", "polars_lazy", "sqlite", "pgtext@sqlite"]
-CONV = {"pandas": "pandas", "polars_eager": "polars", "polars_lazy": "polars", "sqlite": "sql", "pgtext@sqlite": "sql"}
+BACKENDS = ["pandas", "polars_eager", "polars_lazy", "polars_nolazy_model", "sqlite", "pgtext@sqlite"]
+CONV = {"pandas": "pandas", "polars_eager": "polars", "polars_lazy": "polars", "polars_nolazy_model": "polars", "sqlite": "sql", "pgtext@sqlite": "sql"}
 
 
 def run_backend(b, ops, data, sqlcache):
@@ -84,6 +86,8 @@ def run_backend(b, ops, data, sqlcache):
         return backends.run_polars(ops, data, lazy=False)
     if b == "polars_lazy":
         return backends.run_polars(ops, data, lazy=True)
+    if b == "polars_nolazy_model":
+        return backends.run_polars_eager_model(ops, data)
     key = (id(ops), b)
     g = sqlcache.get(key)
     if g is None:
@@ -228,7 +232,7 @@ def run(tier):
     nrows = len(domain_rows(tier))
     return run.finish(
         exhaustive=True,
-        rule=f"prefix states at depth <= 1 of the prefix menu x every project/unordered-window menu entry x 5 suffixes x all multisets of <= 2 rows over the full {nrows}-row product domain of d x 5 backends",
+        rule=f"prefix states at depth <= 1 of the prefix menu x every project/unordered-window menu entry x 5 suffixes x all multisets of <= 2 rows over the full {nrows}-row product domain of d x 6 executors (Pandas, Polars eager / lazy frames, PolarsModel(use_lazy_eval=False), SQLite, PostgreSQL text on SQLite)",
     )
 
 
